@@ -24,7 +24,7 @@ func execC15(ctx *Ctx, in *Input) *Result {
 		sz = feedSizes{Sentences: 40, MaxLen: 40, Exhaustive: 120, Mutants: 80, Prefixes: 4, NoVeryLong: true}
 		nHist, histLen, nInter = 20, 14, 40
 	}
-	pb, ok := prepareBatch(ctx, res, in, wl.AllVariants, wl.EpiFull, sz)
+	pb, ok := prepareBatch(ctx, res, in, wl.AllVariants, wl.EpiFullBoot, sz)
 	defer pb.cleanup()
 	if !ok {
 		return res
